@@ -307,6 +307,57 @@ fn drive(cfg: &Config, slot: usize, progs: &[(String, Vec<Req>, Vec<u8>)], memcr
         c.send(&Req::flush(op::FLUSH, None).bytes());
         c.read_frames(1, patience);
     }
+    // ---- one client after another: a connection that ends with bytes the server never consumed
+    // (requests behind a quit, a frame cut short) is followed by a fresh connection; whichever
+    // thread of whichever runtime sets that one up, it starts from nothing ----
+    for round in 0..6u32 {
+        let leftovers: [(&str, Vec<u8>); 3] = [
+            ("requests behind quit", {
+                let mut b = Req::bare(op::QUIT).opaque(0x7001).bytes();
+                b.extend(Req::store(op::SET, b"leak", b"1", 0, 0, 0).opaque(0x7002).bytes());
+                b.extend(Req::bare(op::NOOP).opaque(0x7003).bytes());
+                b
+            }),
+            ("requests behind quitq", {
+                let mut b = Req::bare(op::QUITQ).opaque(0x7011).bytes();
+                b.extend(Req::store(op::SET, b"leak", b"2", 0, 0, 0).opaque(0x7012).bytes());
+                b
+            }),
+            ("a set frame cut short", {
+                let full = Req::store(op::SET, b"leak", b"3333333333", 0, 0, 0).opaque(0x7021).bytes();
+                full[..full.len() - 4].to_vec()
+            }),
+        ];
+        for (what, bytes) in leftovers.iter() {
+            if let Ok(mut c) = Client::connect(srv.addr) {
+                c.send(&Req::bare(op::NOOP).opaque(0x7000).bytes());
+                c.read_frames(1, patience);
+                c.send(bytes);
+                c.read_frames(4, Duration::from_millis(60));
+                drop(c);
+            }
+            std::thread::sleep(Duration::from_millis(15));
+            let mut c2 = Client::connect(srv.addr)?;
+            let mut b = Req::get(op::GET, b"leak").opaque(0x7101).bytes();
+            b.extend(Req::bare(op::NOOP).opaque(0x7102).bytes());
+            c2.send(&b);
+            let got = c2.read_frames(2, patience);
+            let seen: Vec<(u8, u16, u32)> = wire::split_responses(&got).0.iter().map(|r| (r.opcode, r.status, r.opaque)).collect();
+            let want = vec![(op::GET, st::NOT_FOUND, 0x7101), (op::NOOP, st::OK, 0x7102)];
+            if seen != want && problems.iter().all(|p| p.0 != "next-connection") {
+                problems.push((
+                    "next-connection".into(),
+                    format!("round {}: after a connection that ended with {}, a fresh connection sent get+noop and received {:?}, expected {:?}", round, what, seen, want),
+                ));
+            }
+            for r in wire::split_responses(&got).0 {
+                transcript.extend_from_slice(&[r.opcode]);
+                transcript.extend_from_slice(&r.status.to_be_bytes());
+                transcript.extend_from_slice(&r.body);
+            }
+        }
+        crate::watchdog::beat();
+    }
     // ---- connections that ended in every orderly way come first: the limit probed afterwards is
     // still the configured one (slots are neither lost nor multiplied by earlier connections) ----
     for ending in [op::QUIT, op::QUITQ, op::NOOP] {
